@@ -19,12 +19,19 @@ func copyXAttrs(dst, src string, xeh XAttrErrorHandler) error {
 		return xeh(dst, src, "", errors.Wrapf(err, "failed to list xattrs on %s", src))
 	}
 	for _, xattr := range xattrKeys {
+		// an error the handler tolerates concerns this attribute only: the
+		// remaining ones are still copied
 		data, err := sysx.LGetxattr(src, xattr)
 		if err != nil {
-			return xeh(dst, src, xattr, errors.Wrapf(err, "failed to get xattr %q on %s", xattr, src))
+			if err := xeh(dst, src, xattr, errors.Wrapf(err, "failed to get xattr %q on %s", xattr, src)); err != nil {
+				return err
+			}
+			continue
 		}
 		if err := sysx.LSetxattr(dst, xattr, data, 0); err != nil {
-			return xeh(dst, src, xattr, errors.Wrapf(err, "failed to set xattr %q on %s", xattr, dst))
+			if err := xeh(dst, src, xattr, errors.Wrapf(err, "failed to set xattr %q on %s", xattr, dst)); err != nil {
+				return err
+			}
 		}
 	}
 
